@@ -80,7 +80,7 @@ func IdxSafe(p *load.Program, rels []string, reviewed map[string]string) *report
 			})
 		}
 		inv.collecting = false
-		shared := &idxShared{calls: map[*types.Func][]idxCallRec{}, valued: map[*types.Func]bool{}}
+		shared := &idxShared{calls: map[*types.Func][]idxCallRec{}, valued: map[*types.Func]bool{}, genCalls: map[*types.Func][]*ast.CallExpr{}, genValued: map[*types.Func]bool{}}
 		var walkers []*idxWalker
 		generated := map[string]bool{}
 		for _, f := range pk.Syntax {
@@ -88,6 +88,38 @@ func IdxSafe(p *load.Program, rels []string, reviewed map[string]string) *report
 				if cg.Pos() < f.Package && strings.Contains(cg.Text(), "Code generated") {
 					generated[p.Fset.Position(f.Pos()).Filename] = true
 				}
+			}
+		}
+		// calls of the package's functions that stand in its generated files (the grammar actions): their
+		// constant arguments can establish a bound on a parameter
+		if skipGenerated[rel] {
+			for _, f := range pk.Syntax {
+				if !generated[p.Fset.Position(f.Pos()).Filename] {
+					continue
+				}
+				called := map[*ast.Ident]bool{}
+				ast.Inspect(f, func(n ast.Node) bool {
+					if call, ok := n.(*ast.CallExpr); ok {
+						if fn, ok := typeutil.Callee(pk.TypesInfo, call).(*types.Func); ok && fn.Pkg() == pk.Types {
+							shared.genCalls[fn] = append(shared.genCalls[fn], call)
+							switch fx := call.Fun.(type) {
+							case *ast.Ident:
+								called[fx] = true
+							case *ast.SelectorExpr:
+								called[fx.Sel] = true
+							}
+						}
+					}
+					return true
+				})
+				ast.Inspect(f, func(n ast.Node) bool {
+					if id, ok := n.(*ast.Ident); ok && !called[id] {
+						if fn, ok := pk.TypesInfo.Uses[id].(*types.Func); ok && fn.Pkg() == pk.Types {
+							shared.genValued[fn] = true
+						}
+					}
+					return true
+				})
 			}
 		}
 		for _, fd := range load.FuncDecls(pk) {
@@ -155,6 +187,8 @@ type idxWalker struct {
 
 // idxShared: what the functions of one package tell each other.
 type idxShared struct {
+	genCalls  map[*types.Func][]*ast.CallExpr // callee → its call sites in the package's generated files
+	genValued map[*types.Func]bool            // used as a value in a generated file
 	calls   map[*types.Func][]idxCallRec // callee → its call sites in the package
 	valued  map[*types.Func]bool         // used as a value (not only called): callers unknown
 	pending []*idxPending
@@ -1573,6 +1607,9 @@ func (pd *idxPending) viaCallers(sh *idxShared) string {
 		if IdxDeferToActions != nil && firstLastForm(pd.node) && IdxDeferToActions(w.rel, fn.Name()) {
 			return "" // the grammar actions inline the function: rule list-index decides the site at every call
 		}
+		if pd.constArgsEstablish(sh) {
+			return "" // every call stands in a grammar action and passes constants that satisfy the bound
+		}
 		return "; no call of the function in the package establishes the bound"
 	}
 	// parameters
@@ -1733,4 +1770,62 @@ func firstLastForm(n ast.Node) bool {
 		return x.Low == nil && x.High != nil && isLenMinus1(x.High, x.X)
 	}
 	return false
+}
+
+
+// constArgsEstablish: the function is called only from the package's generated files, never used as a value,
+// the missing goals mention only integer parameters the function does not assign, and at every call those
+// parameters get constants for which every goal holds.
+func (pd *idxPending) constArgsEstablish(sh *idxShared) bool {
+	w := pd.w
+	fn := w.fnObj
+	calls := sh.genCalls[fn]
+	if len(calls) == 0 || sh.genValued[fn] || sh.valued[fn] || w.fd == nil {
+		return false
+	}
+	idx := map[string]int{}
+	i := 0
+	for _, f := range w.fd.Type.Params.List {
+		if _, variadic := f.Type.(*ast.Ellipsis); variadic {
+			return false
+		}
+		for _, nm := range f.Names {
+			idx[nm.Name] = i
+			i++
+		}
+		if len(f.Names) == 0 {
+			i++
+		}
+	}
+	assigned := w.assigned(w.fd.Body)
+	for _, g := range pd.goals {
+		for t := range g.T {
+			if _, ok := idx[t]; !ok || contains(assigned, t) {
+				return false
+			}
+		}
+	}
+	for _, call := range calls {
+		if len(call.Args) != i || call.Ellipsis.IsValid() {
+			return false
+		}
+		for _, g := range pd.goals {
+			sum := g.K
+			for t, c := range g.T {
+				tv, ok := w.info.Types[call.Args[idx[t]]]
+				if !ok || tv.Value == nil {
+					return false
+				}
+				v, exact := constant.Int64Val(constant.ToInt(tv.Value))
+				if !exact {
+					return false
+				}
+				sum += c * int(v)
+			}
+			if sum < 0 {
+				return false
+			}
+		}
+	}
+	return true
 }
